@@ -160,6 +160,35 @@ def initCaches (pl : PruneList) : PruneList := buildLeafShiftCache (buildShiftCa
 /-- `PruneList::open` on the bitmap read from disk -/
 def openBm (bitmap : Bitmap) : PruneList := initCaches (new bitmap)
 
+/-! ### the assertions as panic outcomes
+
+`append` and `append_single` both start with `assert!(pos0 >= self.bitmap.maximum().unwrap_or(0))`
+("prune list append only"; a 0-based position against the 1-based maximum, i.e. strictly right of
+every root), `new` / `open` with `assert!(!bitmap.contains(0))`.  `appendFuel` / `new` above leave
+them out; these variants return `none` where the code panics.  `Lemmas/PruneListAssert.lean` shows
+they never do for the arguments the store passes. -/
+
+/-- `pos0 >= self.bitmap.maximum().unwrap_or(0)` -/
+def appendAssert (pl : PruneList) (pos0 : Nat) : Bool := decide ((Bm.maximum pl.bitmap).getD 0 ≤ pos0)
+
+def appendChecked : Nat → PruneList → Nat → Option PruneList
+  | 0, pl, _ => some pl
+  | fuel+1, pl, pos0 =>
+    if !appendAssert pl pos0 then none else
+    let fam := family pos0
+    if isPruned pl fam.2 then appendChecked fuel pl fam.1
+    else
+      let pl' := cleanupSubtree pl pos0
+      if !appendAssert pl' pos0 then none else some (appendSingle pl' pos0)
+
+/-- `PruneList::new` with all three assertions -/
+def newChecked (bitmap : Bitmap) : Option PruneList :=
+  if Bm.contains bitmap 0 then none else
+  bitmap.foldl (fun acc pos1 => acc.bind fun pl => appendChecked 64 pl (pos1 - 1)) (some {})
+
+/-- `PruneList::open` with the assertions -/
+def openChecked (bitmap : Bitmap) : Option PruneList := (newChecked bitmap).map initCaches
+
 /-- `to_vec` -/
 def toVec (pl : PruneList) : List Nat := pl.bitmap
 
